@@ -312,6 +312,7 @@ PROPS = {
         "level_text": "Decides the path-element clause (element lengths across the 255 limit are rejected or escaped) and memory-discipline necessary conditions of the store.",
         "level_note": "",
         "rules": [
+            {"run": rules_lin.run_linpath, "floor": 10},
             {"run": rules_ident.run_narrow, "floor": 4, "use_anchor_files": True, "ctx": {"records": ["mpt_path", "path"]}},
             {"run": rules_path.run_usednotsize, "floor": 2, "use_anchor_files": True},
             {"run": rules_path.run_bufmix, "floor": 1},
@@ -333,6 +334,7 @@ PROPS = {
         "level_text": "Termination after reading each character once, and 'a failed parse leaves the target tree as it was', for every input and format (structural proofs over all paths).",
         "level_note": "callee effects on the tree (mpt_node_move/clear inside the merge) belong to the success path",
         "rules": [
+            {"run": rules_lin.run_linpath, "floor": 10},
             {"run": rules_path.run_progress, "floor": 8, "use_anchor_files": True},
             {"run": rules_path.run_getcwho, "floor": 3},
             {"run": rules_effect.run_named, "floor": 1, "ctx": {"functions": [["mpt_parse_node", 0]]}},
